@@ -547,9 +547,16 @@ TRUNCATING = {"zip", "take", "skip", "take_while", "skip_while", "step_by", "fil
 
 def binding_rule(F, rep):
     rid = rep.rule("R01.5", "user-function invocation binds every formal parameter or answers null: the binding loop runs over all parameters and every path through it binds or leaves")
-    fns = [n for n in F.hir if n.startswith(B) and "{closure" not in n and n.split("::")[-1].startswith("eval_function_") and
-           find_hir(F.hir[n]["body"], lambda x: x.get("k") == "MethodCall" and x.get("method") == "set_entry")]
-    rep.floor(rid, "parameter-binding functions", len(fns), 2)
+    has_bind = lambda n: bool(find_hir(F.hir[n]["body"], lambda x: x.get("k") == "MethodCall" and x.get("method") == "set_entry"))
+    entry = [n for n in F.hir if n.startswith(B) and "{closure" not in n and n.split("::")[-1].startswith("eval_function_")]
+    fns = [n for n in entry if has_bind(n)]
+    # the binding loop may live in a private helper shared by the positional and the named form
+    for n in entry:
+        for c, _ in find_hir(F.hir[n]["body"], lambda x: x.get("k") in ("Call", "MethodCall") and (x.get("callee") or "").startswith(B) and (x.get("callee") or "") in F.hir):
+            if c["callee"] not in fns and c["callee"] not in entry and has_bind(c["callee"]) and \
+                    find_hir(F.hir[c["callee"]]["body"], lambda x: x.get("k") == "Match" and x.get("src") == "ForLoopDesugar"):
+                fns.append(c["callee"])
+    rep.floor(rid, "parameter-binding functions", len(fns), 1)     # two on the pinned tree; one shared helper may serve both forms
     for n in sorted(fns):
         h = F.hir[n]
         where = "%s:%s" % (h["file"], h["line"])
